@@ -57,6 +57,16 @@ const (
 //go:linkname Create C.GC_pthread_create
 func Create(pthread *Thread, attr *Attr, routine RoutineFunc, arg c.Pointer) c.Int
 
+// The pthread_detach() function marks the thread identified by thread
+// as detached.  When a detached thread terminates, its resources are
+// automatically released back to the system without the need for
+// another thread to join with the terminated thread.
+//
+// See https://man7.org/linux/man-pages/man3/pthread_detach.3.html
+//
+//go:linkname Detach C.GC_pthread_detach
+func Detach(thread Thread) c.Int
+
 // The pthread_join() function waits for the thread specified by
 // thread to terminate.  If that thread has already terminated, then
 // pthread_join() returns immediately.  The thread specified by
